@@ -306,9 +306,19 @@ func vUFmix[T vScalar](x, y T) T {
 	case *uint64:
 		*p = any(x).(uint64)*3 + any(y).(uint64)*5 + 1
 	case *float32:
-		*p = any(x).(float32)*3 + any(y).(float32)*5 + 1
+		// bit-level (multiplication by an odd constant is a bijection on the bit patterns; the result is kept finite): a
+		// numeric formula such as 3x+1 maps every tiny x to the same value and would make replays of float models pass
+		b := math.Float32bits(any(x).(float32))*2654435761 + math.Float32bits(any(y).(float32))*40503 + 1
+		if b&0x7f800000 == 0x7f800000 {
+			b ^= 0x00800000
+		}
+		*p = math.Float32frombits(b)
 	case *float64:
-		*p = any(x).(float64)*3 + any(y).(float64)*5 + 1
+		b := math.Float64bits(any(x).(float64))*0x9E3779B97F4A7C15 + math.Float64bits(any(y).(float64))*0xC2B2AE3D27D4EB4F + 1
+		if b&0x7ff0000000000000 == 0x7ff0000000000000 {
+			b ^= 0x0010000000000000
+		}
+		*p = math.Float64frombits(b)
 	default:
 		r = x
 	}
